@@ -239,3 +239,13 @@ package rosmar
 //@
 //@ fn (*expiryManager).runExpiry
 //@   ensures [C20:runExpiry.unlocked] any: nolocks()
+
+// ---------------------------------------------------------------------------------------------------------------
+// feeds.go
+
+//@ fn (*Collection).postEvent
+//@   requires event != nil
+//@   ensures [C08:postEvent.shared-event-intact] *event == old(*event)
+//@   loop 1 invariant [C08:postEvent.loop-intact] *event == old(*event)
+//@   loop 1 invariant [C08:postEvent.loop-one-push] iter("list.pushfront") <= 1
+//@   ensures [C20:postEvent.unlocked] any: nolocks()
